@@ -52,6 +52,8 @@ FIXED = [
   "a generic-log line '[2024-02-29 23:59:59.999] [INF] [<tag of ~65 500 bytes>] ...' overflowed the u16 length of the generated GET_LOG_INFO message (attempt to add with overflow)", "replays/examples/C03-genlog-long-tag.json"),
  ("KF-C03-10", "C03", "C03-asc-long-bus-name", "fix: asc BusMapping with a very long name",
   "a CAN-ASC comment '// BusMapping: CAN 1 = <name of ~65 500 bytes>' overflowed the u16 length of the generated GET_LOG_INFO message (attempt to add with overflow)", "replays/examples/C03-asc-long-bus-name.json"),
+ ("KF-C03-11", "C03", "C03-asc-data-non-ascii", "fix: asc data with non ascii chars doesn't panic",
+  "a CAN-ASC frame line whose data field contains multi-byte UTF-8 characters ('... Rx   d 8 \u20acA  \u00e90...') was sliced at a byte offset inside a character (end byte index is not a char boundary), CAN and CANFD branch", "replays/examples/C03-asc-data-non-ascii.json"),
  ("KF-C18-1", "C18", "C18-payload_from_args-empty-string-or-raw", "fix: payload_from_args writes the length",
   "utils::payload_from_args wrote no u16 length prefix for an empty string/raw argument, so the encoded payload did not decode to the same arguments (a single empty raw value: 4 bytes written, 0 arguments decoded)",
   "replays/examples/C18-payload_from_args-empty-raw.json"),
